@@ -132,6 +132,130 @@ def email_pattern() -> str:
     return "<class EmailPredicate not found>"
 
 
+# ---------------------------------------------------------------------------------------------
+# default coercers (functions decorated with `@coercer(...)`) -> Koda.CStmt (lean/KodaModel/PyCoerce.lean)
+
+OUT_COERCE = os.path.join(os.path.dirname(OUT), "CoerceSrc.lean")
+TYNAMES = {"str": ".str", "int": ".int", "float": ".float", "bool": ".bool", "bytes": ".bytes", "Decimal": ".decimal",
+           "UUID": ".uuid", "date": ".date", "datetime": ".datetime", "list": ".list", "tuple": ".tuple", "set": ".set",
+           "dict": ".dict"}
+
+
+class CTr:
+    """translator of one coercer body; `val` is the parameter, aliases are names bound to `type(val)`"""
+
+    def __init__(self, val_name: str):
+        self.val = val_name
+        self.type_aliases: set = set()
+
+    def is_val(self, e: ast.expr) -> bool:
+        return isinstance(e, ast.Name) and e.id == self.val
+
+    def is_type_of_val(self, e: ast.expr) -> bool:
+        if isinstance(e, ast.NamedExpr) and isinstance(e.target, ast.Name) and self.is_type_of_val(e.value):
+            self.type_aliases.add(e.target.id)
+            return True
+        if isinstance(e, ast.Name) and e.id in self.type_aliases:
+            return True
+        return (isinstance(e, ast.Call) and isinstance(e.func, ast.Name) and e.func.id == "type" and len(e.args) == 1
+                and not e.keywords and self.is_val(e.args[0]))
+
+    def ty(self, e: ast.expr) -> str:
+        n = ast.unparse(e)
+        return TYNAMES.get(n, "")
+
+    def test(self, e: ast.expr) -> str:
+        if isinstance(e, ast.Compare) and len(e.ops) == 1 and isinstance(e.ops[0], ast.Is) and self.is_type_of_val(e.left):
+            t = self.ty(e.comparators[0])
+            if t:
+                return f"(.typeIs {t})"
+        if (isinstance(e, ast.Call) and isinstance(e.func, ast.Name) and e.func.id == "isinstance" and len(e.args) == 2
+                and not e.keywords and self.is_val(e.args[0])):
+            ts = e.args[1].elts if isinstance(e.args[1], ast.Tuple) else [e.args[1]]
+            tys = [self.ty(t) for t in ts]
+            if all(tys):
+                return f"(.isInst [{', '.join(tys)}])"
+        return ""
+
+    def just_of(self, e: ast.expr):
+        """`Just(<inner>)` -> inner expression"""
+        if isinstance(e, ast.Call) and isinstance(e.func, ast.Name) and e.func.id == "Just" and len(e.args) == 1 and not e.keywords:
+            return e.args[0]
+        return None
+
+    def stmt(self, s: ast.stmt) -> str:
+        if isinstance(s, ast.Pass):
+            return ".pass"
+        if isinstance(s, ast.Return) and s.value is not None:
+            if isinstance(s.value, ast.Name) and s.value.id == "nothing":
+                return ".retNothing"
+            inner = self.just_of(s.value)
+            if inner is not None:
+                if self.is_val(inner):
+                    return ".retJustVal"
+                if (isinstance(inner, ast.Call) and isinstance(inner.func, ast.Name) and inner.func.id == "tuple"
+                        and len(inner.args) == 1 and self.is_val(inner.args[0]) and not inner.keywords):
+                    return ".retJustTupleOfVal"
+        if isinstance(s, ast.If):
+            c = self.test(s.test)
+            if c:
+                return f"(.ite {c} {self.block(s.body)} {self.block(s.orelse)})"
+        if (isinstance(s, ast.Try) and len(s.body) == 1 and isinstance(s.body[0], ast.Return) and s.body[0].value is not None
+                and len(s.handlers) == 1 and not s.orelse and not s.finalbody):
+            inner = self.just_of(s.body[0].value)
+            h = s.handlers[0]
+            if (inner is not None and isinstance(inner, ast.Call) and len(inner.args) == 1 and self.is_val(inner.args[0])
+                    and not inner.keywords and h.type is not None and h.name is None):
+                ctor = ast.unparse(inner.func)
+                excs = h.type.elts if isinstance(h.type, ast.Tuple) else [h.type]
+                names = [ast.unparse(x).split(".")[-1] for x in excs]
+                return f"(.tryRetJust {lstr(ctor)} [{', '.join(lstr(n) for n in names)}] {self.block(h.body)})"
+        return f"(.unsupported {lstr(ast.dump(s)[:200])})"
+
+    def block(self, body: List[ast.stmt]) -> str:
+        body = [s for s in body if not (isinstance(s, ast.Expr) and isinstance(s.value, ast.Constant))]
+        if not body:
+            return ".pass"
+        out = self.stmt(body[-1])
+        for s in reversed(body[:-1]):
+            out = f"(.seq {self.stmt(s)} {out})"
+        return out
+
+
+def collect_coercers() -> List[Tuple[str, List[str], str]]:
+    found = []
+    for fn in sorted(os.listdir(PKG)):
+        if not fn.endswith(".py"):
+            continue
+        tree = ast.parse(open(os.path.join(PKG, fn)).read())
+        for node in tree.body:
+            if not isinstance(node, ast.FunctionDef):
+                continue
+            decs = [d for d in node.decorator_list if isinstance(d, ast.Call) and ast.unparse(d.func) == "coercer"]
+            if not decs:
+                continue
+            compat = [TYNAMES.get(ast.unparse(a), f"(.cls ⟨0, 0, false, false⟩) /- {ast.unparse(a)} -/") for a in decs[0].args]
+            args = [a.arg for a in node.args.args]
+            if len(args) != 1:
+                term = '(.unsupported "signature")'
+            else:
+                term = CTr(args[0]).block(node.body)
+            found.append((node.name, compat, term))
+    found.sort()
+    return found
+
+
+def render_coerce() -> str:
+    found = collect_coercers()
+    lines = ["/- GENERATED by harness/pysrc.py from the current source of /repo/koda_validate — do not edit -/",
+             "import KodaModel.PyCoerce", "", "namespace Koda.Src", "",
+             "/-- every function decorated with `@coercer(<compatible types>)`: its compatible types and its body, translated -/",
+             "def coercers : List (String × List Ty × CStmt) := ["]
+    lines.append(",\n".join(f"  ({lstr(n)}, [{', '.join(c)}], {t})" for n, c, t in found))
+    lines += ["]", "", "end Koda.Src", ""]
+    return "\n".join(lines)
+
+
 def render() -> str:
     found = collect()
     lines = ["/- GENERATED by harness/pysrc.py from the current source of /repo/koda_validate — do not edit -/",
@@ -149,14 +273,16 @@ def render() -> str:
 
 
 def regenerate() -> bool:
-    new = render()
-    old = open(OUT).read() if os.path.exists(OUT) else None
-    if new != old:
-        with open(OUT, "w") as f:
-            f.write(new)
-        return True
-    return False
+    changed = False
+    for path, new in ((OUT, render()), (OUT_COERCE, render_coerce())):
+        old = open(path).read() if os.path.exists(path) else None
+        if new != old:
+            with open(path, "w") as f:
+                f.write(new)
+            changed = True
+    return changed
 
 
 if __name__ == "__main__":
     print(render())
+    print(render_coerce())
